@@ -181,6 +181,34 @@ def deep_module_workspace(rng):
     return ws
 
 
+def accessor_clash_workspace(rng):
+    """two modules are imported under the same accessor by different modules (x/util in main, y/util in the library), both
+    export the same names; the library's constructors have fields whose types are aliases, generic types and types of its
+    own imports, so that analysing main has to look into the library's scope and come back.  Qualified references in main
+    - before, between and after uses of the library's constructors, in the same block and in nested ones - mean x/util."""
+    fn = rng.choice(["show", "render", "to_text"])
+    xu = f"pub fn {fn}(v) {{\n  v\n}}\n\npub const limit = 1\n\npub type Tag {{\n  Tag(n: Int)\n}}\n"
+    yu = f"pub fn {fn}(v) {{\n  #(v, v)\n}}\n\npub const limit = 2\n\npub type Tag {{\n  Tag(s: String)\n}}\n"
+    lib = (f"import y/util\n\npub type Id = Int\n\npub type Pair(a) = #(a, a)\n\npub type User {{\n  User(id: Id, tag: util.Tag)\n  Guest(ids: Pair(Id))\n}}\n\n"
+           f"pub fn describe(u: User) {{\n  util.{fn}(u)\n}}\n")
+    main = (f"import x/util\nimport lib\n\npub fn main() {{\n  let a = util.{fn}(1)\n  let u = lib.User(2, todo)\n  let b = util.{fn}(u.id)\n"
+            f"  let c = case u {{\n    lib.User(id: i, ..) -> util.{fn}(i)\n    lib.Guest(_) -> util.{fn}(0)\n  }}\n  let d = {{\n    let g = lib.Guest(#(1, 2))\n    util.{fn}(g)\n  }}\n"
+            f"  let t = util.Tag(3)\n  #(a, b, c, d, t, util.{fn}(lib.describe(u)))\n}}\n")
+    files = [("/w/p/src/x/util.gleam", xu), ("/w/p/src/y/util.gleam", yu), ("/w/p/src/lib.gleam", lib), ("/w/p/src/main.gleam", main), ("/w/p/gleam.toml", 'name = "p"\n')]
+    ws = PlainWs(files)
+    def at(fi, text, needle, k=0, nth=0):
+        i = -1
+        for _ in range(nth + 1):
+            i = text.index(needle, i + 1)
+        return (fi, len(text[:i + k].encode("utf-8")))
+    uses = [at(3, main, f"util.{fn}(", 5, n) for n in range(main.count(f"util.{fn}("))]
+    ws.groups = [
+        (fn, [at(0, xu, f"fn {fn}", 3)] + uses),
+        ("Tag", [at(0, xu, "  Tag(n", 2), at(3, main, "util.Tag(3)", 5)]),
+    ]
+    return ws
+
+
 def lookalike_workspace(rng):
     """look-alike modules (a template instantiated twice): in two files a function sits at exactly the same byte range, one
     module names the library function qualified, the other imports it unqualified; a third declares a local of the same
@@ -270,6 +298,7 @@ def run_c06(res, tier, seed):
     wss += [record_workspace(rrng) for _ in range(12 if tier == "quick" else 100)]
     wss += [deep_module_workspace(rrng) for _ in range(6 if tier == "quick" else 60)]
     wss += [lookalike_workspace(rrng) for _ in range(4 if tier == "quick" else 40)]
+    wss += [accessor_clash_workspace(rrng) for _ in range(3 if tier == "quick" else 30)]
     wss += [variant_label_workspace(rrng) for _ in range(6 if tier == "quick" else 60)]
     run_expected_groups(res, "C06", wss)
     all_toks = stage1(wss)
